@@ -36,6 +36,16 @@ def harnesses_for(prop):
     return [n for n in names if any(n.startswith(p) for p in prefixes)]
 
 
+SMALL = ("f81", "f82", "f83", "f162")
+
+
+def kani_feasible(name):
+    """Kani is run only on harnesses whose every operand type is a small Bvf (<= 32 bits, u32 reference model);
+    the 128-bit types (Bvf<u64,2>, Bvd, Bv) are covered by native random search only (not bounded-exhaustive)"""
+    parts = name.split("__", 1)[1].split("_")
+    return all(p in SMALL for p in parts)
+
+
 def _kani_once(names, scratch, jobs, timeout, playback):
     crate = _copy_crate(scratch)
     env = dict(os.environ)
@@ -145,15 +155,16 @@ def search(prop, unit, violations, scratch, seed=1):
         return None
     exe = build_replay(scratch)
     # 1. cheap: native random inputs
-    found = fuzz(exe, names, 20000, seed or 1)
+    found = fuzz(exe, names, 200000, seed or 1)
     src = "native random search (executable contract, %d harnesses)" % len(names)
     kani_log = ""
     if not found:
-        res, kani_log, secs = run_kani(names, scratch)
+        knames = [n for n in names if kani_feasible(n)]
+        res, kani_log, secs = run_kani(knames, scratch, timeout=900) if knames else ({}, "", 0.0)
         for n, r in res.items():
             if r["status"] == "failed" and r["bytes"]:
                 found[n] = r["bytes"]
-        src = "kani 0.68 / cbmc (bounded: all values of the harness types), %d harnesses, %.0fs" % (len(names), secs)
+        src = "kani 0.68 / cbmc (bounded: all values of the small harness types), %d harnesses, %.0fs" % (len(knames), secs)
     for n, bs in found.items():
         rc, out, panic = native_replay(exe, n, bs)
         if rc == 1:
